@@ -18,6 +18,8 @@ higher-order calls taking a local closure run it 0..CLOSURE_K times.
 import re
 import sys
 
+import frame
+
 sys.setrecursionlimit(10000)
 
 LOOP_K = 1
@@ -143,6 +145,7 @@ class Explorer:
         self.blockmaps = {}
         self.interned = {}
         self.interned_rev = {}
+        self._from_cache = {}
         self.stats = {"forks": 0, "steps": 0, "inlined": set(), "opaque": set()}
 
     # ------------------------------------------------------------------ util
@@ -245,7 +248,19 @@ class Explorer:
         """Bound term size without identifying distinct terms: deep sub-terms are interned."""
         if term_depth(t) <= 6:
             return t
-        return tuple(self.intern(x) if isinstance(x, tuple) and term_depth(x) > 3 else x for x in t)
+        return self.shrink(t)
+
+    def shrink(self, t):
+        out = []
+        for x in t:
+            if isinstance(x, tuple) and x:
+                if isinstance(x[0], str):
+                    out.append(self.intern(x) if term_depth(x) > 3 else x)
+                else:
+                    out.append(self.shrink(x))   # plain tuple of nodes (argument list): keep its shape
+            else:
+                out.append(x)
+        return tuple(out)
 
     def intern(self, t):
         i = self.interned.get(t)
@@ -269,6 +284,9 @@ class Explorer:
                     root, path = v[1], v[2]
                 elif v[0] == "sym":
                     root, path = ("D", v[1]), ()
+                elif v[0] == "closure":
+                    # `&mut closure` passed by value into a higher-order call: deref is the closure itself
+                    pass
                 elif v[0] in ("boxuninit", "boxarr", "box"):
                     # Box local: the box's storage is the local itself
                     path = path + (("box",),)
@@ -817,6 +835,10 @@ class Explorer:
             self.opaque_call(st, fr, "<indirect>", args, dest, site, None)
             return self.after_call(st, fr, target)
         name = info.get("name")
+        if info["path"] == "std::convert::Into::into" and len(info.get("targs", [])) == 2:
+            alt = self.local_from(info["targs"][0], info["targs"][1])
+            if alt:
+                path = alt
         # closure invocation
         if info["path"].startswith("std::ops::Fn") and args and self.closure_of(st, args[0]) is not None:
             clo = self.closure_of(st, args[0])
@@ -850,6 +872,18 @@ class Explorer:
         self.stats["opaque"].add(path)
         self.opaque_call(st, fr, path, args, dest, site, info)
         return self.after_call(st, fr, target)
+
+    def local_from(self, t_from, t_to):
+        """In-crate `impl From<t_from> for t_to` (the target of the blanket Into::into), if any."""
+        key = (t_from, t_to)
+        c = self._from_cache.get(key)
+        if c is None:
+            c = ""
+            for f in self.F.fns.values():
+                if f.get("name") == "from" and f.get("impl_self") == t_to and f.get("impl_trait_ref", "").endswith("From<%s>" % t_from):
+                    c = f["path"]
+            self._from_cache[key] = c
+        return c or None
 
     def after_call(self, st, fr, target):
         if target is None:
@@ -908,6 +942,18 @@ class Explorer:
         argterms = tuple(self.deref(st, a) if a[0] == "ref" else a for a in args)
         if not argterms and info is not None and info.get("targs"):
             argterms = (("targs", tuple(info["targs"])),)
+        # frame rule: accessor(mutator(x, ..)) == accessor(x) when the accessor reads no field the mutator writes
+        if argterms and path in self.F.fns:
+            a0 = argterms[0]
+            for _ in range(6):
+                t0 = a0[1] if a0[0] == "sym" else None
+                if t0 and t0[0] == "field" and t0[2] == 0 and isinstance(t0[1], tuple) and t0[1] and t0[1][0] == "call":
+                    t0 = t0[1]      # unwrap()/? of a Result-returning mutator
+                if not (t0 and t0[0] == "call" and t0[2] and frame.disjoint(self.F, path, t0[1])):
+                    break
+                a0 = t0[2][0]
+            if a0 is not argterms[0]:
+                argterms = (a0,) + tuple(argterms[1:])
         res = SYM(self.cap(("call", path, argterms)))
         if self.opaque_hook:
             r = self.opaque_hook(self, st, path, args, argterms, info)
@@ -976,7 +1022,8 @@ class Explorer:
                 return ret(UNIT())
             return None
         # ---- conversions keep provenance
-        if p in ("std::convert::Into::into", "std::convert::From::from") and path in self.F.fns and "mqtt::result_code" in path:
+        if p in ("std::convert::Into::into", "std::convert::From::from") and path in self.F.fns and "mqtt::result_code" in path \
+                and args and (args[0][0] == "c" or (args[0][0] == "agg" and not args[0][3])):
             return None  # in-crate reason-code conversions are inlined (decided by their own match tables)
         if p in ("std::convert::Into::into", "std::convert::From::from") :
             return ret(SYM(self.cap(("into", args[0], info["targs"][-1] if p.endswith("into") else info["targs"][0]))))
